@@ -510,7 +510,7 @@ func splitHeader(enc []byte, v *refVariant) (hdr, rest []byte) {
 // checkTrie: C07 robustness oracle for one input, both decoders.
 //
 //	a node or an error; no panic; no hang (watchdog + read-call bound);
-//	allocation delta <= 64*len(input) + 64 KiB.
+//	allocation delta <= 64*len(input) + 128 KiB.
 func (c *ctx) checkTrie(m mutant) bool {
 	if m.kind != "truncate" && m.kind != "extend" {
 		if _, giant := refNodeScan(m.data); giant {
@@ -543,7 +543,7 @@ func (c *ctx) checkTrie(m mutant) bool {
 			continue
 		}
 		if excess > 0 {
-			c.report("alloc", "alloc-exceeds-linear-bound:"+d.name, "%s: %s %s: input %s (%d bytes): decoding allocated %d bytes, bound 64*len+64KiB = %d (err=%v)",
+			c.report("alloc", "alloc-exceeds-linear-bound:"+d.name, "%s: %s %s: input %s (%d bytes): decoding allocated %d bytes, bound 64*len+128KiB = %d (err=%v)",
 				d.name, m.kind, m.detail, hx(m.data), len(m.data), exact, 64*len(m.data)+allocFloor, err)
 		}
 		_ = reads
